@@ -367,6 +367,28 @@ pub fn gen_case(r: &mut Rng, corpus: &Corpus, max_len: usize) -> Case {
             let n = r.range(1, 600);
             bytes = (0..n).map(|_| r.below(256) as u8).collect();
         }
+        11 if r.chance(1, 2) => {
+            // characters from every plane: supplementary scripts, emoji, variation selectors, tags, the unassigned rest of
+            // plane 14, private use (BMP and planes 15 / 16), noncharacters, U+10FFFF -- in utf-8 / utf-16 / gb18030
+            kind = "all-planes";
+            let pts: [(u32, u32); 16] = [(0x20, 0x7e), (0xa0, 0x24f), (0x370, 0x52f), (0xe000, 0xf8ff), (0xfdd0, 0xfdef), (0xfff0, 0xffff),
+                (0x10000, 0x1007f), (0x1d400, 0x1d7ff), (0x1f300, 0x1f6ff), (0x20000, 0x2a6df), (0x2f800, 0x2fa1f), (0xe0000, 0xe007f),
+                (0xe0100, 0xe01ef), (0xe01f0, 0xe0fff), (0xf0000, 0xffffd), (0x100000, 0x10ffff)];
+            let n = r.range(1, 400);
+            let mut t = String::new();
+            let (pa, pb) = (*r.pick(&pts), *r.pick(&pts));
+            for i in 0..n {
+                let (a, b) = if r.chance(1, 6) { *r.pick(&pts) } else if i % 2 == 0 { pa } else { pb };
+                if let Some(c) = char::from_u32(a + r.below((b - a + 1) as usize) as u32) { t.push(c); }
+                if i % 9 == 8 { t.push(' '); }
+            }
+            let enc = *r.pick(&["utf-8", "utf-8", "utf-8", "utf-16le", "utf-16be", "gb18030"]);
+            bytes = vec![];
+            if enc != "utf-8" || r.chance(1, 3) {
+                for (e, m) in marks() { if e == enc { bytes.extend_from_slice(m); } }
+            }
+            bytes.extend_from_slice(&encode_text(&t, enc).unwrap_or_else(|| t.as_bytes().to_vec()));
+        }
         _ => {
             kind = "mixed-script";
             let a = r.pick(&corpus.texts);
